@@ -224,20 +224,37 @@ func (r *vRun) c04InDomain(op uint64, a []uint64, pre *vPre) bool {
 	if r.weird {
 		return false
 	}
-	ok := r.c04Fresh()
+	why := ""
+	no := func(reason string) {
+		if why == "" {
+			why = reason
+		}
+	}
+	if !r.c04Fresh() {
+		no("allocator-frame-not-fresh")
+	}
 	in511 := func(page uint64) bool { return vIdx(page&vPageMask36, 0) == 511 }
 	switch op {
 	case 0, 1:
-		ok = ok && !in511(a[0])
+		if in511(a[0]) {
+			no("page-in-recursive-slot")
+		}
 	case 2, 3:
 	case 4:
-		if a[1] != pre.oldRoot {
-			ok = ok && s.backed(a[1]) && !r.used[a[1]]
+		if a[1] != pre.oldRoot && (!s.backed(a[1]) || r.used[a[1]]) {
+			no("init-frame-unbacked-or-in-use")
 		}
 	case 5, 6:
-		ok = ok && r.inited[a[0]&7] && !in511(a[1])
+		if !r.inited[a[0]&7] {
+			no("uninitialised-pdt")
+		}
+		if in511(a[1]) {
+			no("page-in-recursive-slot")
+		}
 	case 7:
-		ok = ok && r.inited[a[0]&7]
+		if !r.inited[a[0]&7] {
+			no("uninitialised-pdt")
+		}
 	case 8, 9:
 		size := a[1]
 		if size+4095 >= size {
@@ -246,21 +263,27 @@ func (r *vRun) c04InDomain(op uint64, a []uint64, pre *vPre) bool {
 			if op == 8 {
 				start = (pre.last - n<<12) >> 12
 			}
-			if size > 1<<24 {
-				ok = false // too long to follow page by page; C07 covers the sizes
+			if op == 8 && (size+4095)&^4095 > pre.last {
+				// does not fit below the cursor: must be refused, nothing is mapped
+			} else if size > 1<<24 {
+				no("region-too-long-to-follow") // C07 covers the sizes
 			} else {
 				for i := uint64(0); i < n; i++ {
-					ok = ok && !in511(start+i)
+					if in511(start + i) {
+						no("page-in-recursive-slot")
+					}
 				}
 			}
 		}
 	default:
-		ok = false
+		no("set-up-op")
 	}
-	if !ok {
+	if why != "" {
 		r.weird = true
+		r.stats["c04-left-domain:"+why]++
+		return false
 	}
-	return ok
+	return true
 }
 
 // onStray: inside the domain the code never makes an access the MMU cannot resolve.
@@ -373,9 +396,16 @@ func (r *vRun) c04Post(op uint64, a []uint64, code, val uint64, rootBefore *[512
 		}
 	case 8, 9:
 		size := a[1]
-		if size > 1<<24 && size+4095 >= size {
+		if size > 1<<24 && size+4095 >= size && !(op == 8 && (size+4095)&^4095 > pre.last) {
 			r.weird = true // too long to follow page by page; C07 covers the sizes
 			return
+		}
+		if op == 8 && size+4095 >= size && (size+4095)&^4095 > pre.last {
+			if code != 5 {
+				r.mon("region-does-not-fit", "MapRegion(size %#x) with cursor %#x returned %d", size, pre.last, code)
+			}
+			r.unchangedExcept(pre, ^uint64(0), nil, "failed-region-op-changed-translation", "region op that does not fit")
+			break
 		}
 		n := (size + 4095) >> 12
 		var start uint64
@@ -450,14 +480,24 @@ func (r *vRun) c05Post(a []uint64, secs []vSection, code uint64, pre *vPre) {
 	off := a[0]
 	type exp struct{ frame, flags uint64 }
 	want := map[uint64]exp{} // 36-bit page -> expectation (section pages)
-	domain := off&0xfff == 0
+	domain := true
+	why := ""
+	out := func(reason string) {
+		domain = false
+		if why == "" {
+			why = reason
+		}
+	}
+	if off&0xfff != 0 {
+		out("unaligned-offset")
+	}
 	for _, sc := range secs {
 		if sc.size == 0 || sc.addr < off {
 			continue
 		}
 		end := sc.addr + (sc.size - 1)
 		if end < sc.addr || sc.size > 1<<24 {
-			domain = false
+			out("section-wraps-or-huge")
 			continue
 		}
 		fl := vP
@@ -469,15 +509,18 @@ func (r *vRun) c05Post(a []uint64, secs []vSection, code uint64, pre *vPre) {
 		}
 		for p, i := sc.addr>>12, uint64(0); p <= end>>12; p, i = p+1, i+1 {
 			p36 := p & vPageMask36
-			if _, dup := want[p36]; dup || vIdx(p36, 0) == 511 || p36 == (vTempAddr>>12)&vPageMask36 {
-				domain = false
+			if _, dup := want[p36]; dup {
+				out("sections-share-a-page")
+			}
+			if vIdx(p36, 0) == 511 || p36 == (vTempAddr>>12)&vPageMask36 {
+				out("section-in-recursive-slot-or-temp-page")
 			}
 			if _, resv := pre.oldResv[p36]; resv {
-				domain = false
+				out("section-touches-reserved-range")
 			}
 			fr := (sc.addr-off)>>12 + i
 			if fr >= 1<<40 {
-				domain = false
+				out("frame-above-2^40")
 			}
 			want[p36] = exp{fr, fl}
 		}
@@ -489,32 +532,33 @@ func (r *vRun) c05Post(a []uint64, secs []vSection, code uint64, pre *vPre) {
 		}
 		end := sc.addr + (sc.size - 1)
 		if end < sc.addr || sc.size > 1<<24 {
-			domain = false
+			out("section-wraps-or-huge")
 			continue
 		}
 		for p := sc.addr >> 12; p <= end>>12; p++ {
 			if _, dup := want[p&vPageMask36]; dup {
-				domain = false
+				out("low-section-shares-a-page")
 			}
 		}
 	}
 	for p36, old := range pre.oldResv {
 		if !vPresent(old[0], old[1]) || vIdx(p36, 0) == 511 {
-			domain = false
+			out("reserved-page-not-mapped")
 		}
 	}
 	if len(pre.oldResv) >= 4096 {
-		domain = false
+		out("reserved-range-too-long")
 	}
 	// allocator: fresh frames only
 	for _, f := range s.allocs {
 		if !s.backed(f) || r.used[f] {
-			domain = false
+			out("allocator-frame-not-fresh")
 		}
 		r.used[f] = true
 	}
 	if !domain {
 		r.stats["c05-outside-quantifier"]++
+		r.stats["c05-outside:"+why]++
 		return
 	}
 	if s.allocErr {
